@@ -260,6 +260,10 @@ def run_scenario(scn: Dict[str, Any], *, outer: str, profile: str, inner_first: 
         return None  # a hot event at the very subscription instant is a tie with subscribe(); the model has it delivered
     if resub and (outer_hot or fl == "hot"):
         return None
+    if outer_kind == "sync" and scn.get("take"):
+        # the whole outer timeline at relative time 0 is emitted inside subscribe(), before anybody holds a handle on the
+        # subscription: a take() that completes in the middle of it cannot stop the rest (no operator can) - not compared
+        return None
     off = RESUB_OFFSET if resub else 0
     ni = len(tab)
     cod = Codec(tab, profile, salt)
